@@ -88,12 +88,19 @@ func UintB(t *rapid.T, bits int) uint64 {
 		return max - 1
 	case 4:
 		return uint64(1) << uint(rapid.IntRange(0, bits-1).Draw(t, "bit"))
-	case 5, 6:
+	case 5:
 		return rapid.Uint64Range(0, 300).Draw(t, "small") & max
+	case 6:
+		// values that mean something somewhere in the protocol (rcodes, algorithm numbers, type and
+		// class codes, digest types): field-value combinations with special handling live here
+		return rapid.SampledFrom(significant).Draw(t, "sig") & max
 	default:
 		return rapid.Uint64Range(0, max).Draw(t, "any")
 	}
 }
+
+var significant = []uint64{1, 2, 3, 4, 5, 6, 7, 8, 10, 12, 13, 14, 15, 16, 17, 18, 19, 20, 21, 22, 23, 28, 33, 41, 43, 46, 47, 48, 50, 52, 64, 65,
+	99, 127, 128, 129, 250, 251, 252, 253, 254, 255, 256, 257, 260, 512, 1232, 3600, 4096, 32768, 65280, 65534}
 
 // Bytes draws n octets (hostile-biased unless plain).
 func Bytes(t *rapid.T, n int, plain bool) []byte {
@@ -283,7 +290,10 @@ func GenField(t *rapid.T, typ uint16, spec wm.FieldSpec, prev []wm.Field, o *Opt
 		}
 		n := Len(t, lo, o.blobMax())
 		if o.BigBlob && rapid.IntRange(0, 30).Draw(t, "big") == 0 {
-			n = rapid.SampledFrom([]int{255, 256, 4090, 4096, 16383, 16384, 40000}).Draw(t, "bign")
+			n = rapid.SampledFrom([]int{255, 256, 511, 512, 513, 1023, 1024, 1025, 1536, 2048, 4090, 4096, 16383, 16384, 40000}).Draw(t, "bign")
+		}
+		if spec.R == wm.ReprOctet && pres && n > 255 && o.avoid("octet-over-255-text") {
+			n = 255
 		}
 		f.B = Bytes(t, n, false)
 		if spec.R == wm.ReprOctet {
